@@ -1509,7 +1509,10 @@ class C06(Check):
             "symlink and cp destination between persister registration and the return of run_all resolves beneath the output "
             "directory + before/after walk of the scratch area; non-trivial = >= 2 specs; distinct = digest of (results, I/O events, "
             "executed commands)")
-    real_vs_stub = COMMON_REAL
+    real_vs_stub = dict(COMMON_REAL, **{
+        "cold-process cases (W2c): insights.collect.collect(), load_packages / apply_default_enabled / apply_configs / apply_blacklist, the shipped insights.specs.default.DefaultSpecs components, Hydration": "real, in a fresh child interpreter per case",
+        "cold-process cases (W2c): HostContext.check_output / shell_out": "stub (class attributes patched in the child: commands are recorded and answered from a table, nothing of the sandbox is executed)",
+    })
     assumptions = [
         "TOCTOU (a link swapped between validate() and the lazy load() of one provider) is not simulated; a layout that changes between two evaluations on one context object is",
         "deny-list entries name canonical spec paths; aliasing of a denied file through a differently named symlink is not asserted",
